@@ -150,6 +150,7 @@ func drawC06(t *rapid.T) C06Case {
 		Unicode:   rapid.IntRange(0, 5).Draw(t, "unicode") == 0,
 		WideDates: true,
 	}
+	gen.MaybeLarge(t, &cfg, 40)
 	j := gen.GenJournal(t, cfg)
 	wide := rapid.IntRange(0, 7).Draw(t, "wide") == 0
 	if wide {
